@@ -86,6 +86,16 @@ Definition entities_reported (s : str) : bool := negb (str_eqb s (escape s)).
 Definition boolean_change (prev_tok_end : option N) (eq_start expr_end : N) : chg :=
   (match prev_tok_end with Some p => p | None => eq_start end, expr_end, []).
 
+(* proposed repair: a blank instead of nothing if the next character would be glued to the name
+   (`next` = the character behind the container, None at the end of the text) *)
+Definition glued_next (next : option N) : bool :=
+  match next with
+  | None => false
+  | Some c => negb (is_ws c) && negb ((c =? 47) || (c =? GT) || (c =? LBRACE))
+  end.
+Definition boolean_change_repaired (prev_tok_end : option N) (eq_start expr_end : N) (next : option N) : chg :=
+  (match prev_tok_end with Some p => p | None => eq_start end, expr_end, if glued_next next then [32] else []).
+
 (* ================================================================== jsx-props-no-spread-multi *)
 (* SourceRange { start: attr.range().start - 2, end: attr.range().end + 1 }; None = the subtraction panics *)
 Definition spread_change (s e : N) : option chg :=
@@ -398,6 +408,40 @@ Theorem boolean_fix_result pre name rest post :
 Proof.
   unfold boolean_change.
   pose proof (apply_one (pre ++ name) rest post []) as H. rewrite <- !app_assoc in H. exact H.
+Qed.
+
+(* CURRENT CODE: nothing separates the name from what follows: `<Foo a:b={true}c:d />` becomes
+   `<Foo a:bc:d />` (parse error), `<Foo foo={true}bar />` becomes `<Foo foobar />` *)
+Theorem boolean_fix_glues_refuted :
+  exists pre name rest post,
+    pre ++ name ++ rest ++ post = s2l "<Foo a:b={true}c:d />" /\
+    apply_fix (utf8 (pre ++ name ++ rest ++ post))
+      [ch_bytes (boolean_change (Some (bytes (pre ++ name))) (bytes (pre ++ name)) (bytes (pre ++ name) + bytes rest))]
+    = Some (utf8 (s2l "<Foo a:bc:d />")).
+Proof.
+  exists (s2l "<Foo "), (s2l "a:b"), (s2l "={true}"), (s2l "c:d />").
+  split; vm_compute; reflexivity.
+Qed.
+
+(* after the proposed repair the name is followed by what followed the container, or by a blank *)
+Theorem boolean_fix_repaired_result pre name rest post :
+  apply_fix (utf8 (pre ++ name ++ rest ++ post))
+            [ch_bytes (boolean_change_repaired (Some (bytes (pre ++ name))) (bytes (pre ++ name)) (bytes (pre ++ name) + bytes rest) (hd_error post))]
+  = Some (utf8 (pre ++ name ++ (if glued_next (hd_error post) then [32] else []) ++ post)).
+Proof.
+  unfold boolean_change_repaired.
+  pose proof (apply_one (pre ++ name) rest post (if glued_next (hd_error post) then [32] else [])) as H.
+  rewrite <- !app_assoc in H. exact H.
+Qed.
+
+Theorem boolean_fix_repaired_separated pre name rest c post :
+  glued_next (Some c) = true ->
+  apply_fix (utf8 (pre ++ name ++ rest ++ c :: post))
+            [ch_bytes (boolean_change_repaired (Some (bytes (pre ++ name))) (bytes (pre ++ name)) (bytes (pre ++ name) + bytes rest) (Some c))]
+  = Some (utf8 (pre ++ name ++ 32 :: c :: post)).
+Proof.
+  intros H. pose proof (boolean_fix_repaired_result pre name rest (c :: post)) as R.
+  cbn [hd_error] in R. rewrite H in R. exact R.
 Qed.
 
 (* OBSERVATION (not a failure of C13 as stated): nothing separates the name from what follows, so
